@@ -112,10 +112,6 @@ exists (plc P' * plc L' ^+ k'); rewrite mulr1 -E -mulrA -rmorphX -rmorphM /= mul
 by rewrite mul_polyC.
 Qed.
 
-Definition sqfree_prim_Z_multiply_back_full_statement : Prop :=
-  forall fuel f c fs, pcontent f = 1%ZZ -> (0 < plc f)%ZZ ->
-  sqfree_prim_Z fuel f = Some (c, fs) -> Poly f = c *: uprodP fs.
-
 (* ------------------------------------------------------------------ Z_p[x] *)
 Arguments yun_loop_Zp : simpl never.
 Arguments pgcd_Zp : simpl never.
@@ -305,4 +301,175 @@ eexists; split; first by [].
 rewrite -Poly_pdivc; first by rewrite Poly_pnorm Poly_psub -Poly_uprod addrC subrK.
   by move=> x /Hd H; apply/Z.mod_divide => //; lia.
 by lia.
+Qed.
+
+(* ------------------------------------------------------------------ FULL multiply-back over Z: the constant left over is 1
+   (the reference gcd returns polynomials with non-negative leading coefficient; a constant dividing a primitive
+   polynomial is a unit) *)
+Lemma plc_pscale c q : plc (pscale c q) = c * plc q.
+Proof. by rewrite -!lead_coef_plc Poly_pscale lead_coefZ. Qed.
+
+Lemma plc_pneg q : plc (pneg q) = - plc q.
+Proof. by rewrite -!lead_coef_plc Poly_pneg lead_coefN. Qed.
+
+Lemma plc_nil : plc [::] = 0.
+Proof. by []. Qed.
+
+Lemma pcontent_ge0 (f : seq Z) : (0 <= pcontent f)%ZZ.
+Proof. by case: f => [|c f] //=; apply: Z.gcd_nonneg. Qed.
+
+Lemma plc_ppp_ge0 g : (0 <= plc (ppp g))%ZZ.
+Proof.
+rewrite /ppp; case: Z.eqb_spec => _; first by [].
+case: Z.ltb_spec => H; last by [].
+by rewrite plc_pneg /GRing.opp /=; lia.
+Qed.
+
+Lemma plc_scale_ppp_ge0 c g : (0 <= c)%ZZ -> (0 <= plc (pscale c (ppp g)))%ZZ.
+Proof. by move=> c0; rewrite plc_pscale; apply: Z.mul_nonneg_nonneg => //; exact: plc_ppp_ge0. Qed.
+
+Lemma plc_pgcd_ge0 a b : (0 <= plc (pgcd a b))%ZZ.
+Proof.
+rewrite /pgcd; case: (pnorm a) => [|x a']; case: (pnorm b) => [|y b'] //;
+  apply: plc_scale_ppp_ge0; try exact: pcontent_ge0; exact: Z.gcd_nonneg.
+Qed.
+
+Lemma plc_eq0 (x : seq Z) : (plc x == 0) = (Poly x == 0).
+Proof. by rewrite -lead_coef_plc lead_coef_eq0. Qed.
+
+Lemma plc_div a b q : pdiv_exact a b = Some q -> (0 < plc a)%ZZ -> (0 < plc b)%ZZ -> (0 < plc q)%ZZ.
+Proof.
+move=> /pdiv_exact_sound /(congr1 lead_coef); rewrite lead_coefM !lead_coef_plc => -> H Hb.
+by move: H; rewrite /GRing.mul /=; nia.
+Qed.
+
+Lemma yun_loop_Z_pos fuel k P L acc acc' P' L' k' :
+  yun_loop_Z fuel k P L acc = Some (acc', P', L', k') ->
+  (0 < plc P)%ZZ -> (0 < plc L)%ZZ -> (0 < plc P')%ZZ /\ (0 < plc L')%ZZ.
+Proof.
+rewrite /yun_loop_Z; elim: fuel k P L acc => [|fuel IH] k P L acc //=.
+case: ifP => _; first by case=> _ <- <- _.
+case EP: (pdiv_exact P _) => [P1|] //.
+move=> H pP pL.
+have R0 : (0 < plc (pgcd P L))%ZZ.
+  have := @plc_pgcd_ge0 P L; have := plc_eq0 (pgcd P L).
+  have : Poly (pgcd P L) != 0.
+    have PP : Poly P != 0 by rewrite -plc_eq0; apply/eqP; lia.
+    by move: PP; rewrite (pdiv_exact_sound EP) mulf_eq0 negb_or => /andP[].
+  by move=> /negbTE -> /eqP; lia.
+have P1pos := plc_div EP pP R0.
+move: H; case: ifP => _; first by move=> /IH; apply.
+by case EO: (pdiv_exact L _) => [O1|] // /IH; apply.
+Qed.
+
+Lemma pcontent_greatest (f : seq Z) u : (forall x, List.In x f -> (u | x)%ZZ) -> (u | pcontent f)%ZZ.
+Proof.
+elim: f => [|c f IH] H /=; first exact: Z.divide_0_r.
+by apply: Z.gcd_greatest; [apply: H; left | apply: IH => x Hx; apply: H; right].
+Qed.
+
+Lemma scale_divides_content (f : seq Z) (u : Z) (W : {poly Z}) : Poly f = u *: W -> (u | pcontent f)%ZZ.
+Proof.
+move=> E; apply: pcontent_greatest => x /In_nth0 [i ->].
+by rewrite -coef_Poly_nth E coefZ; exists (W`_i); rewrite /GRing.mul /=; lia.
+Qed.
+
+Theorem sqfree_prim_Z_multiply_back fuel f c fs :
+  pcontent f = 1%ZZ -> (0 < plc f)%ZZ ->
+  sqfree_prim_Z fuel f = Some (c, fs) -> Poly f = c *: uprodP fs.
+Proof.
+move=> cont1 lcpos; rewrite /sqfree_prim_Z; case: ifP => [/Nat.eqb_eq d0|_].
+  by case=> <- <-; rewrite /uprodP big_nil alg_polyC; exact: size1_polyC_Z.
+case: ifP => // _.
+case EL: (pdiv_exact f _) => [L|] //.
+case EY: (yun_loop_Z _ _ _ _ _) => [[[[fs1 P'] L'] k']|] //.
+case: ifP => // /Nat.eqb_eq dP [<- <-].
+have dL : pdeg L' = 0%N by apply/Nat.eqb_eq; apply: (yun_loop_exit EY).
+have P0 : (0 < plc (pgcd f (pderiv f)))%ZZ.
+  have := @plc_pgcd_ge0 f (pderiv f); have := plc_eq0 (pgcd f (pderiv f)).
+  have : Poly (pgcd f (pderiv f)) != 0.
+    have PP : Poly f != 0 by rewrite -plc_eq0; apply/eqP; lia.
+    by move: PP; rewrite (pdiv_exact_sound EL) mulf_eq0 negb_or => /andP[].
+  by move=> /negbTE -> /eqP; lia.
+have L0 := plc_div EL lcpos P0.
+have [P'pos L'pos] := yun_loop_Z_pos EY P0 L0.
+move/yun_loop_Z_invariant: EY.
+rewrite /uprodP big_nil mul1r expr1 -(pdiv_exact_sound EL) (size1_polyC_Z dP) (size1_polyC_Z dL) => E.
+have Eu : Poly f = (plc P' * plc L' ^+ k') *: uprodP fs1.
+  by rewrite -E -mulrA -rmorphX -rmorphM /= mulrC mul_polyC.
+have upos : (0 < plc P' * plc L' ^+ k')%ZZ.
+  apply: Z.mul_pos_pos => //; elim: k' {E Eu} => [|n IHn]; first by [].
+  by rewrite exprS; apply: Z.mul_pos_pos.
+have /Z.divide_1_r_nonneg : (plc P' * plc L' ^+ k' | 1)%ZZ by rewrite -cont1; apply: scale_divides_content Eu.
+move=> H; rewrite Eu /uprodP; congr (_ *: _); apply: H; lia.
+Qed.
+
+Lemma pcontent_pdivc (f : seq Z) (c : Z) : c <> 0%ZZ -> (c = pcontent f \/ c = - pcontent f)%ZZ ->
+  pcontent (pdivc f c) = 1%ZZ.
+Proof.
+move=> c0 Hc.
+have Hdiv x : List.In x f -> (c | x)%ZZ.
+  by move=> /pcontent_divide H; case: Hc => ->; [|apply/Z.divide_opp_l].
+set d := pcontent (pdivc f c).
+have d0 : (0 <= d)%ZZ by apply: pcontent_ge0.
+have H1 : (c * d | pcontent f)%ZZ.
+  apply: pcontent_greatest => x Hx.
+  have [k Ek] := Hdiv x Hx.
+  have : (d | x / c)%ZZ by apply: pcontent_divide; rewrite /pdivc; apply/in_map_iff; exists x.
+  by rewrite Ek Z.div_mul // => -[m ->]; exists m; lia.
+have : (d | 1)%ZZ.
+  case: Hc H1 => Ec H1.
+    by apply/(Z.mul_divide_cancel_l _ _ c) => //; rewrite Z.mul_1_r {2}Ec.
+  apply/Z.divide_opp_r/(Z.mul_divide_cancel_l _ _ c) => //.
+  by have -> : (c * -1 = pcontent f)%ZZ by lia.
+by move=> /Z.divide_1_r_nonneg; apply.
+Qed.
+
+Lemma pnorm_nil_of_Poly0 (f : seq Z) : Poly f = 0 -> pnorm f = [::].
+Proof. by move=> E; rewrite -polyseq_Poly_pnorm E polyseq0. Qed.
+
+Lemma plc_pdivc_pos (f : seq Z) : content_signed (pnorm f) <> 0%ZZ ->
+  (0 < plc (pdivc (pnorm f) (content_signed (pnorm f))))%ZZ.
+Proof.
+set f' := pnorm f; set c := content_signed f' => c0.
+have E : Poly f' = c *: Poly (pdivc f' c) by apply: Poly_pdivc => // x /content_signed_divide.
+have lcE : plc f' = (c * plc (pdivc f' c))%ZZ by rewrite -!lead_coef_plc E lead_coefZ.
+have g0 := @pcontent_ge0 f'.
+have lc0 : plc f' <> 0%ZZ.
+  move=> /eqP; rewrite plc_eq0 /f' Poly_pnorm => /eqP /pnorm_nil_of_Poly0 H.
+  by apply: c0; rewrite /c /content_signed /f' H.
+move: lcE c0 lc0; rewrite /c /content_signed; case: Z.ltb_spec => H; nia.
+Qed.
+
+Lemma xpower_content_plc (f : seq Z) k g : xpower f = (k, g) -> pcontent g = pcontent f /\ plc g = plc f.
+Proof.
+move=> E; split; last first.
+  by rewrite -!lead_coef_plc (xpower_spec E) lead_coefM lead_coefXn mulr1.
+elim: f k g E => [|c f IH] k g /=; first by case=> _ <-.
+case: Z.eqb_spec => [->|_]; last by case=> _ <-.
+case E: (xpower f) => [k' g'] [_ <-]; rewrite (IH _ _ E) /=.
+by have := @pcontent_ge0 f; lia.
+Qed.
+
+(* lp_upolynomial_factor_square_free over Z, as coded (content, sign, x^k, Yun loop): FULL multiply-back *)
+Theorem factor_square_free_Z_multiply_back fuel f c fs :
+  factor_square_free_Z fuel f = Some (c, fs) -> Poly f = c *: uprodP fs.
+Proof.
+rewrite /factor_square_free_Z; case: Z.eqb_spec => // c0.
+case Ex: (xpower _) => [k g].
+case Es: (sqfree_prim_Z fuel g) => [[c' fs']|] // [<- <-].
+have [Ec Elc] := xpower_content_plc Ex.
+have g1 : pcontent g = 1%ZZ.
+  rewrite Ec; apply: pcontent_pdivc => //.
+  by rewrite /content_signed; case: ifP => _; [right | left].
+have gpos : (0 < plc g)%ZZ by rewrite Elc; apply: plc_pdivc_pos.
+have Eg := sqfree_prim_Z_multiply_back g1 gpos Es.
+have Ef : Poly f = content_signed (pnorm f) *: Poly (pdivc (pnorm f) (content_signed (pnorm f))).
+  by rewrite -Poly_pdivc ?Poly_pnorm // => x /content_signed_divide.
+rewrite Ef (xpower_spec Ex) Eg.
+have -> : uprodP (if Nat.eqb k 0 then fs' else (fs' ++ [:: ([:: 0%ZZ; 1%ZZ], k)])%list) = uprodP fs' * 'X^k.
+  case: Nat.eqb_spec => [->|_]; first by rewrite expr0 mulr1.
+  rewrite /uprodP big_cat big_seq1 /=; congr (_ * _ ^+ _).
+  by rewrite !cons_poly_def mul0r add0r polyC0 addr0 polyC1 mul1r.
+by rewrite -scalerAl scalerA mulrC.
 Qed.
